@@ -60,16 +60,22 @@ def post_merge(run, snap, res, args, kwargs):
     if not _in_domain(run, mon, a):
         return
     got = [r[:3] for r in ga_rows(res)]
+    gg = M.chrom_groups(got)
+    if gg is None:
+        return run.violate(mon, "merge-chromosome-split", "merge() output splits a chromosome's rows", {"a": a, "got": got})
+    gd = {c: rs for c, rs in gg}          # chromosome order of the output is not judged here (inputs need not be in natural order)
     if bp == 0:
-        want = [(c, s, e) for c, rs in (M.chrom_groups(a) or []) for s, e in M.runs([(r[1], r[2]) for r in rs])]
-        if got != want:
-            return run.violate(mon, "merge-not-minimal-union", f"merge() rows {got[:8]} != maximal runs of the union {want[:8]}",
-                               {"a": a, "got": got, "want": want})
+        wd = {c: [(c, s, e) for s, e in M.runs([(r[1], r[2]) for r in rs])] for c, rs in (M.chrom_groups(a) or [])}
+        if gd != wd:
+            return run.violate(mon, "merge-not-minimal-union", f"merge() rows {got[:8]} != maximal runs of the union {sum(wd.values(), [])[:8]}",
+                               {"a": a, "got": got, "want": sum(wd.values(), [])})
     else:
-        want = M.merge_rows(a, bp)
-        if got != want:
-            return run.violate(mon, "merge-bp-grouping", f"merge(bp={bp}) rows {got[:8]} != documented grouping {want[:8]}",
-                               {"a": a, "bp": bp, "got": got, "want": want})
+        wd = {}
+        for r in M.merge_rows(a, bp):
+            wd.setdefault(r[0], []).append(r)
+        if gd != wd:
+            return run.violate(mon, "merge-bp-grouping", f"merge(bp={bp}) rows {got[:8]} != documented grouping {sum(wd.values(), [])[:8]}",
+                               {"a": a, "bp": bp, "got": got, "want": sum(wd.values(), [])})
     run.held(mon, f"merge:{_cls(a)}:bp{'0' if bp == 0 else '!=0'}")
 
 
@@ -182,34 +188,43 @@ def post_subdivide(run, snap, res, args, kwargs):
         return
     got = [r[:3] for r in ga_rows(res)]
     w = {"a": [r[:3] for r in a], "avg": avg, "min": mn, "got": got}
-    regions = [(c, s, e) for c, rs in (M.chrom_groups(a) or []) for s, e in M.runs([(r[1], r[2]) for r in rs])]
-    i = 0
+    gg = M.chrom_groups(got)
+    if gg is None:
+        return run.violate(mon, "subdivide-chromosome-split", "subdivide() output splits a chromosome's rows", w)
+    gd = {c: rs for c, rs in gg}
     ties = 0
-    for c, s, e in regions:
-        span = e - s
-        if span < mn:
-            if i < len(got) and got[i][0] == c and got[i][1] < e and got[i][2] > s:
-                return run.violate(mon, "subdivide-kept-small", f"region {c}:{s}-{e} < min_size {mn} kept", w)
-            continue
-        counts = M.subdivide_counts(span, avg)
-        ties += len(counts) > 1
-        bins = []
-        while i < len(got) and got[i][0] == c and got[i][1] >= s and got[i][2] <= e and got[i][1] < e:
-            bins.append(got[i])
-            i += 1
-            if bins[-1][2] == e:
-                break
-        if not bins:
-            return run.violate(mon, "subdivide-dropped", f"region {c}:{s}-{e} (>= min_size {mn}) has no bins", w)
-        if bins[0][1] != s or bins[-1][2] != e or any(p[2] != q[1] for p, q in zip(bins, bins[1:])) or any(b[2] <= b[1] for b in bins):
-            return run.violate(mon, "subdivide-not-consecutive", f"bins of {c}:{s}-{e} are not a consecutive exact cover: {bins[:6]}", w)
-        if len(bins) not in counts:
-            return run.violate(mon, "subdivide-count", f"{c}:{s}-{e}: {len(bins)} bins, expected max(1, round({span}/{avg})) = {sorted(counts)}", w)
-        sizes = [b[2] - b[1] for b in bins]
-        if max(sizes) - min(sizes) > 1:
-            return run.violate(mon, "subdivide-unequal", f"{c}:{s}-{e}: bin sizes {sorted(set(sizes))} differ by more than 1", w)
-    if i != len(got):
-        return run.violate(mon, "subdivide-extra-rows", f"unexpected output row {got[i]}", w)
+    seen_chroms = set()
+    for c, rs in (M.chrom_groups(a) or []):
+        seen_chroms.add(c)
+        gotc = gd.get(c, [])
+        i = 0
+        for s, e in M.runs([(r[1], r[2]) for r in rs]):
+            span = e - s
+            if span < mn:
+                if i < len(gotc) and gotc[i][1] < e and gotc[i][2] > s:
+                    return run.violate(mon, "subdivide-kept-small", f"region {c}:{s}-{e} < min_size {mn} kept", w)
+                continue
+            counts = M.subdivide_counts(span, avg)
+            ties += len(counts) > 1
+            bins = []
+            while i < len(gotc) and gotc[i][1] >= s and gotc[i][2] <= e and gotc[i][1] < e:
+                bins.append(gotc[i])
+                i += 1
+                if bins[-1][2] == e:
+                    break
+            if not bins:
+                return run.violate(mon, "subdivide-dropped", f"region {c}:{s}-{e} (>= min_size {mn}) has no bins", w)
+            if bins[0][1] != s or bins[-1][2] != e or any(p[2] != q[1] for p, q in zip(bins, bins[1:])) or any(b[2] <= b[1] for b in bins):
+                return run.violate(mon, "subdivide-not-consecutive", f"bins of {c}:{s}-{e} are not a consecutive exact cover: {bins[:6]}", w)
+            if len(bins) not in counts:
+                return run.violate(mon, "subdivide-count", f"{c}:{s}-{e}: {len(bins)} bins, expected max(1, round({span}/{avg})) = {sorted(counts)}", w)
+            sizes = [b[2] - b[1] for b in bins]
+            if max(sizes) - min(sizes) > 1:
+                return run.violate(mon, "subdivide-unequal", f"{c}:{s}-{e}: bin sizes {sorted(set(sizes))} differ by more than 1", w)
+        if i != len(gotc):
+            return run.violate(mon, "subdivide-extra-rows", f"unexpected output row {gotc[i]}", w)
+    if set(gd) - seen_chroms:
+        return run.violate(mon, "subdivide-extra-rows", f"output on chromosomes {sorted(set(gd) - seen_chroms)} absent from the input", w)
     run.held(mon, f"subdivide:{_cls(a)}" + (":tie" if ties else ""))
 
 
